@@ -72,7 +72,7 @@ def check(prop, tier, seed):
     binp = go_test_build("./race/", "race.test", race=True)
     recs = []
     jobs = []
-    reps = 3 if quick else 40
+    reps = 12 if quick else 60
     for role in ("acceptor", "initiator"):
         for scn in SCENARIOS:
             for gm in (("4",) if quick else ("1", "2", "4", "16")):
